@@ -341,7 +341,7 @@ func c14twoRouters(d1, d2 time.Duration, n, bound int) *explore.Scenario {
 }
 
 func init() {
-	register(&Check{ID: "C14",
+	register(&Check{ID: "C14", YieldOnRelease: true,
 		Scenarios: func(tier string) []*explore.Scenario {
 			var out []*explore.Scenario
 			n, b := 3, 2
